@@ -22,6 +22,7 @@ import EaselModel.Dist.MixLogClose
 import EaselModel.Dist.MixgevLog
 import EaselModel.Dist.HxpQuantile
 import EaselModel.Dist.MixgevAll
+import EaselModel.Dist.InvRight
 /-! # C10 — each distribution's pdf, cdf, survival, log and inverse functions agree
 
 Full statement (properties.jsonl): for every supported continuous distribution and all valid parameters and arguments
@@ -872,6 +873,19 @@ theorem sample_is_inverse_of_deviate {α : Type} [Add α] [Sub α] [Mul α] [Div
       esl_gumbel_Sample u mu l = esl_gumbel_invcdf u mu l ∧
       esl_gev_Sample u mu l a = esl_gev_invcdf u mu l a ∧ esl_wei_Sample u mu l a = esl_wei_invcdf u mu l a :=
   ⟨by first | exact Or.inl rfl | exact Or.inr rfl, rfl, rfl, rfl⟩
+
+/-- the other direction of "the inverse cdf inverts the cdf", and what it means for the inversion samplers: for `p ∈ (0,1)`
+    `cdf (invcdf p) = p` (exponential also `surv (invsurv p) = p`; Gumbel; Weibull, `τ ≠ 0`; GEV, `α ≠ 0`), so the
+    (translated) sample made from a deviate `u ∈ (0,1)` sits exactly where the textbook cdf equals `u` (exponential: where
+    the survival equals `u` — the sampler takes `log u`): a uniform deviate gives the family's distribution. -/
+theorem inverse_right_and_samples {μ l t p : ℝ} (hl : 0 < l) (hp0 : 0 < p) (hp1 : p < 1) :
+    (expCdf μ l (expInvCdf μ l p) = p ∧ expSurv μ l (expInvSurv μ l p) = p ∧ gumbelCdf μ l (gumbelInvCdf μ l p) = p ∧
+      (t ≠ 0 → weiCdf μ l t (weiInvCdf μ l t p) = p) ∧ (t ≠ 0 → gevCdf μ l t (gevInvCdf μ l t p) = p)) ∧
+    (expSurv μ l (esl_exp_Sample p μ l) = p ∧ gumbelCdf μ l (esl_gumbel_Sample p μ l) = p ∧
+      (t ≠ 0 → weiCdf μ l t (esl_wei_Sample p μ l t) = p) ∧ (¬ |t| < 1e-12 → gevCdf μ l t (esl_gev_Sample p μ l t) = p)) :=
+  ⟨⟨InvRight.exp_cdf_invcdf hl hp0 hp1, InvRight.exp_surv_invsurv hl hp0 hp1, InvRight.gumbel_cdf_invcdf hl.ne' hp0 hp1,
+      fun ht => InvRight.wei_cdf_invcdf hl ht hp0 hp1, fun ht => InvRight.gev_cdf_invcdf hl ht hp0 hp1⟩,
+    InvRight.samples_at_deviate hl hp0 hp1⟩
 
 /-- the mixture samplers (TRANSLATED since round 4; `k` = the component `esl_rnd_DChoose` yields, `u` = the positive
     uniform deviate): the sample is the chosen component's inverse survival (hyperexponential; see above for `log u`
